@@ -1621,3 +1621,7 @@ mod tests {
     //     assert_eq!(wallet.private_key, private_key1);
     // }
 }
+
+#[cfg(all(test, saito_verif))]
+#[path = "/verif/replay/in_crate/wallet.rs"]
+mod verif_replay;
